@@ -265,6 +265,17 @@ func c13HelloCallbackAlwaysRuns(c *Ctx) {
 			n++
 			fname := fieldNameOf(fa)
 			key := "callback installed as Config." + fname
+			// the closure writes this connection's variables: the Config it sits in must be this connection's own
+			own := false
+			switch x := fa.X.(type) {
+			case *ssa.Alloc:
+				own = true
+			case *ssa.Call:
+				if f := x.Call.StaticCallee(); f != nil && f.Name() == "Clone" {
+					own = true
+				}
+			}
+			c.Check(own, "hello-callback-own-config", key, p.InstrPos(st), "the Config is built in Handle for this connection", "the callback that takes this connection's digest and server name is stored into a tls.Config that was not built for this connection (`"+RenderN(fa.X, 3)+"`): every connection of the service overwrites the same slot, so when two overlap the earlier one's hello runs the later one's closure – its own events carry an empty https.ja3-digest and server name, and the other connection gets them")
 			switch fname {
 			case "GetConfigForClient":
 				c.Ok(rule, key, p.InstrPos(st), "called for every ClientHello")
@@ -554,7 +565,19 @@ func c13ExtensionListComplete(c *Ctx) {
 		return
 	}
 	n := 0
+	// unmarshal and the methods of the message it hands the extension block to
+	scope := []*ssa.Function{um}
 	for _, call := range Calls(um) {
+		if hf := call.Common().StaticCallee(); hf != nil && hf != um && InRepo(hf) && hf.Blocks != nil && PkgOf(hf) == PkgOf(um) {
+			scope = append(scope, hf)
+		}
+	}
+	var appends []ssa.CallInstruction
+	for _, f := range scope {
+		appends = append(appends, Calls(f)...)
+	}
+	for _, call := range appends {
+		um := call.Parent()
 		cv, ok := call.(*ssa.Call)
 		if !ok {
 			continue
@@ -567,12 +590,10 @@ func c13ExtensionListComplete(c *Ctx) {
 			continue
 		}
 		// the appended element is the 16-bit type read from the first two bytes of the remaining data
-		el := Render(cv.Call.Args[1])
-		if !strings.Contains(el, "<< 8") {
-			continue
-		}
 		// only the extension loop: the element is built from data[0], data[1]
-		if !strings.Contains(el, "[0]") || !strings.Contains(el, "[1]") {
+		if el := appendedElem(cv.Call.Args[1]); el == nil {
+			continue
+		} else if _, ok := be16AtStart(el); !ok {
 			continue
 		}
 		n++
